@@ -342,6 +342,23 @@ func runInBubble(spec *RunSpec, res *RunResult) {
 			c.directRead(i, "crash", gen)
 		}
 		restart := ms(spec.Crashes[inc].RestartMs)
+		if age := spec.Crashes[inc].AgeNs; age != nil {
+			restart = 0
+			maxAge := 30 * time.Minute
+			if m := spec.Inc(inc + 1).MaxLastUpdateMs; m > 0 {
+				maxAge = ms(m)
+			}
+			for _, e := range w.Events() {
+				if e.Kind == EvDirect && e.Note == "crash" && e.Gen == gen && e.Plan != nil && status(e.Plan, e.Obj) == StRunning {
+					last := lastUpdateOf(e.Plan) - epochUnixNs // ns since the epoch of the run
+					target := last + int64(maxAge) + *age      // instant at which age == maxAge + AgeNs
+					if d := target - w.Now(); d > 0 {
+						restart = time.Duration(d)
+					}
+					break
+				}
+			}
+		}
 		if restart > 0 {
 			time.Sleep(restart)
 			w.fault("clock-jump")
@@ -392,6 +409,21 @@ func runInBubble(spec *RunSpec, res *RunResult) {
 	if c.disk != nil {
 		c.disk.Close(stdctx.Background())
 	}
+}
+
+// lastUpdateOf mirrors the documented notion of a plan's most recent recorded
+// activity: the newest Start/End timestamp of any object (unix ns).
+func lastUpdateOf(p *PlanSnap) int64 {
+	var last int64
+	for _, st := range p.States {
+		if st.Start > last {
+			last = st.Start
+		}
+		if st.End > last {
+			last = st.End
+		}
+	}
+	return last
 }
 
 // recoveryClients is what runs against a restarted incarnation: wait for every
